@@ -375,9 +375,16 @@ def _injection_sweep(frame, obj, nxt, where):
         else:
             S.bump("inject.absorbed")
             exp = list(S.sh)
-            good = len(res) == len(exp) and all(
-                c.obj is m and c.is_async == m.is_async and bool(c.is_exiting) == ex
+            # (one place of the analysis contains exceptions on purpose: the lookup of the manager behind an exit callable,
+            # which may run foreign code - _manager_of.  A fault injected there is contained the same way: that one
+            # entry's obj is None, documented as "manager not recoverable"; everything else stays exact.)
+            contained = 1 if state["fired"] and state["fired"][0] == "_manager_of" else 0
+            unknown = sum(1 for c, (m, ex) in zip(res, exp) if c.obj is None and m is not None)
+            good = len(res) == len(exp) and unknown <= contained and all(
+                (c.obj is m or c.obj is None) and c.is_async == m.is_async and bool(c.is_exiting) == ex
                 for c, (m, ex) in zip(res, exp))
+            if contained and unknown:
+                S.bump("inject.contained_by_manager_lookup_guard")
             if not good:
                 add_obs("ref.no_warning_but_not_exact_under_injected_fault", where, got=ctxs_summary(res),
                         exp=shadow_summary())
